@@ -6,6 +6,7 @@ pub mod c08;
 pub mod c09;
 pub mod c13;
 pub mod c16;
+pub mod oscp;
 
 pub struct PropSpec {
     pub id: &'static str,
@@ -18,7 +19,7 @@ pub struct PropSpec {
 }
 
 pub fn all() -> Vec<PropSpec> {
-    vec![c01::spec(), c08::spec(), c09::spec(), c13::spec(), c16::spec()]
+    vec![c01::spec(), oscp::spec_c02(), oscp::spec_c03(), oscp::spec_c04(), oscp::spec_c05(), oscp::spec_c06(), c08::spec(), c09::spec(), c13::spec(), c16::spec(), oscp::spec_c17(), oscp::spec_c18()]
 }
 
 pub fn get(id: &str) -> Option<PropSpec> {
